@@ -747,7 +747,7 @@ impl<F: Read + Write + Seek> Package<F> {
                     .flatten()
                     .filter_map(Value::as_str)
                     .map(|string| (string, 1)),
-                0,
+                &HashMap::new(),
             ) {
                 invalid_input!(
                     "Cannot create table {:?}: too many distinct strings in \
